@@ -255,7 +255,26 @@ def run(chk: Check) -> None:
         d = deps(rt.value)
         if "python_version" in d and "cache_dir" in d:
             okv = True
-    if okv:
+    # both components of the version take part (3.9 and 3.12 must not share a directory)
+    ver_alias = {k for k, v in env_names.items() if norm(v) == "options.python_version"}
+    is_ver = lambda e: norm(e) == "options.python_version" or (isinstance(e, ast.Name) and e.id in ver_alias)  # noqa: E731
+    idx, whole_ok = set(), False
+    par9 = cdp.module.parents()
+    for n in ast.walk(cdp.node):
+        if is_ver(n) and not (isinstance(n, ast.Name) and isinstance(n.ctx, ast.Store)):
+            p_ = par9.get(n)
+            if isinstance(p_, ast.Subscript) and p_.value is n:
+                if isinstance(p_.slice, ast.Constant):
+                    idx.add(p_.slice.value)
+            elif isinstance(p_, ast.BinOp) and isinstance(p_.op, ast.Mod) and p_.right is n and isinstance(p_.left, ast.Constant) and isinstance(p_.left.value, str):
+                whole_ok = whole_ok or p_.left.value.count("%") >= 2
+            elif isinstance(p_, ast.Assign):
+                pass
+            else:
+                whole_ok = True
+    if okv and not (whole_ok or {0, 1} <= idx):
+        r3.violation("_cache_dir_prefix depends on cache_dir and python_version", cdp.loc(), f"only part of python_version selects the cache directory (indices used: {sorted(idx)}): two target versions that analyse differently share cache files, and python_version is not in the options key")
+    elif okv:
         r3.ok("_cache_dir_prefix depends on cache_dir and python_version", cdp.loc())
     else:
         r3.violation("_cache_dir_prefix depends on cache_dir and python_version", cdp.loc(), "returned directory no longer derived from options.python_version")
